@@ -4,4 +4,5 @@ CONSTANTS
   K = 5
   MaxSteps = 14
   SeedOnOpen = TRUE
+  MetaKeepsMark = TRUE
 CHECK_DEADLOCK FALSE
